@@ -35,13 +35,58 @@ def model_for(mb: ModelBuilder, writer: str) -> AObj:
     if writer == "AFMWriter":
         return c06.afm_rich(mb)
     if writer == "FeatureIDEWriter":
-        return c07.fide_rich(mb)
+        m = c07.fide_rich(mb)
+        for f in _all_feats(m):
+            if f._f["name"] == "q":
+                f._f["name"] = "Größe"
+        for c in m._f["ctcs"]:
+            _rename(c._f["_ast"]._f["root"], {"q": "Größe"})
+        return m
     if writer == "GlencoeWriter":
-        return c08.glencoe_rich(mb)
+        m = c08.glencoe_rich(mb)
+        for f in _all_feats(m):
+            if f._f["name"] == "q":
+                f._f["name"] = "Größe"
+        for c in m._f["ctcs"]:
+            _rename(c._f["_ast"]._f["root"], {"q": "Größe"})
+        return m
     m = rich_model(mb)
     if writer in ("JSONWriter", "SPLOTWriter", "PLWriter", "ClaferWriter"):
         m._f["ctcs"] = [c for c in m._f["ctcs"] if c._f["name"] != "arith"]
+    return _non_ascii(m)
+
+
+def _non_ascii(m: AObj) -> AObj:
+    """Rename two features (and their occurrences in constraints) to non-ASCII names: the value returned,
+    the bytes written and the bytes read back must agree on them."""
+    from ..roundtrip import features as all_features
+    ren = {"solo": "Größe", "v": "Menú"}
+    for f in all_features(m):
+        if f._f["name"] in ren:
+            f._f["name"] = ren[f._f["name"]]
+
+    def walk(n: Any) -> None:
+        if isinstance(n, AObj) and n._cls == "Node":
+            if isinstance(n._f.get("data"), str) and n._f["data"] in ren:
+                n._f["data"] = ren[n._f["data"]]
+            walk(n._f.get("left"))
+            walk(n._f.get("right"))
+    for c in m._f["ctcs"]:
+        walk(c._f["_ast"]._f["root"])
     return m
+
+
+def _all_feats(m: AObj) -> list[AObj]:
+    from ..roundtrip import features as all_features
+    return all_features(m)
+
+
+def _rename(n: Any, ren: dict[str, str]) -> None:
+    if isinstance(n, AObj) and n._cls == "Node":
+        if isinstance(n._f.get("data"), str) and n._f["data"] in ren:
+            n._f["data"] = ren[n._f["data"]]
+        _rename(n._f.get("left"), ren)
+        _rename(n._f.get("right"), ren)
 
 
 def setup(it: Interp, vfs: VFS) -> None:
